@@ -70,7 +70,7 @@ def main():
                      "kind_free_text": "Lean 4 model of the proc macro with theorems per property; Python/Rust harness that builds a generated corpus against /repo's working tree (hook on) and compares real executions with the model (M) and the reference semantics (S)"}],
         "checks": checks,
         "not_applicable": na,
-        "notes": "See DESIGN.md. Repairs of genuine defects in /repo: e0a3911 (D1 bounds), ad0602b (D2 builder self-overlap), 441536c (D3 reversed range); known finding KF1 in known_findings.json.",
+        "notes": "See DESIGN.md. Repairs of genuine defects in /repo: e0a3911 (D1 bounds), ad0602b (D2 builder self-overlap), 441536c (D3 reversed range), dc30ad4 (D4 checked arithmetic for huge literals); known finding KF1 in known_findings.json.",
     }
     json.dump(m, open("/verif/MANIFEST.json", "w"), indent=1)
     print("claimed:", claimed)
